@@ -424,6 +424,9 @@ func (b *Reader) skipFieldSimpleList() error {
 	if err != nil {
 		return err
 	}
+	if length < 0 {
+		return fmt.Errorf("simple list with negative length %d", length)
+	}
 
 	b.Skip(int(length))
 	return nil
@@ -575,7 +578,10 @@ func (b *Reader) SkipTo(ty, tag byte, require bool) (bool, error) {
 
 // ReadSliceInt8 reads []int8 for the given length and the require or optional sign.
 func (b *Reader) ReadSliceInt8(data *[]int8, len int32, require bool) error {
-	if len <= 0 {
+	if len < 0 {
+		return fmt.Errorf("read []int8 error: negative length %d", len)
+	}
+	if len == 0 {
 		// an empty vector on the wire replaces whatever the destination held
 		*data = make([]int8, 0)
 		return nil
@@ -594,7 +600,10 @@ func (b *Reader) ReadSliceInt8(data *[]int8, len int32, require bool) error {
 
 // ReadSliceUint8 reads []uint8 force the given length and the require or optional sign.
 func (b *Reader) ReadSliceUint8(data *[]uint8, len int32, require bool) error {
-	if len <= 0 {
+	if len < 0 {
+		return fmt.Errorf("read []uint8 error: negative length %d", len)
+	}
+	if len == 0 {
 		// an empty vector on the wire replaces whatever the destination held
 		*data = make([]uint8, 0)
 		return nil
